@@ -1,3 +1,2 @@
 import PieModel.Props.C05
-open PieModel
-#print axioms C05_placeholder
+#print axioms PieModel.C05_placeholder
